@@ -82,6 +82,20 @@ impl<R: Read + Seek> ReadBox<&mut R> for StsdBox {
         let mut mp4a = None;
         let mut tx3g = None;
 
+        // a box without room for a sample entry has none
+        if reader.stream_position()? + HEADER_SIZE > start + size {
+            skip_bytes_to(reader, start + size)?;
+            return Ok(StsdBox {
+                version,
+                flags,
+                avc1,
+                hev1,
+                vp09,
+                mp4a,
+                tx3g,
+            });
+        }
+
         // Get box header.
         let header = BoxHeader::read(reader)?;
         let BoxHeader { name, size: s } = header;
@@ -131,7 +145,13 @@ impl<W: Write> WriteBox<&mut W> for StsdBox {
 
         write_box_header_ext(writer, self.version, self.flags)?;
 
-        writer.write_u32::<BigEndian>(1)?; // entry_count
+        // entry_count: this box holds at most one sample entry
+        let has_entry = self.avc1.is_some()
+            || self.hev1.is_some()
+            || self.vp09.is_some()
+            || self.mp4a.is_some()
+            || self.tx3g.is_some();
+        writer.write_u32::<BigEndian>(u32::from(has_entry))?;
 
         if let Some(ref avc1) = self.avc1 {
             avc1.write_box(writer)?;
